@@ -27,6 +27,9 @@ with spec/Trace_Pipeline.tla:
                                may list several chunk_sizes per scale: one line
                                per chunking, every chunking counts
 
+The statistics function API is also called in-process for datasets A, B, A in one
+interpreter, and datasets with entirely zero chunks are converted and reported.
+
 (the other clauses of Trace_Pipeline are evaluated as well - a violation of any
 of them is reported under the clause's own name).  Violations are registered
 with ctx.violation(clause, sig, detail) by this function; DRIFT with
@@ -129,7 +132,8 @@ def _programs(ctx):
                       "explicit": rng.random() < 0.5, "seed": rng.randrange(1 << 30),
                       "docs_shflag": rng.random() < 0.5, "shard_enc": rng.choice(["gzip", "raw"]),
                       "slice_format": ["png", "tiff"][k % 2]})
-    progs += _boundary_programs(ctx) + _multi_chunking_programs(ctx)
+    progs += (_boundary_programs(ctx) + _multi_chunking_programs(ctx) + _zero_background_programs(ctx)
+              + _in_process_programs(ctx))
     return progs
 
 
@@ -176,6 +180,55 @@ def _boundary_programs(ctx):
         if tgt == 64:      # the all-in-one command has no chunk size option
             cmds += [C("AllInOne", "B", type="image", enc="raw", m="auto"), C("Stats", "B")]
         progs.append(_prog(rng, vol, cmds, tgt=None if tgt == 64 else tgt))
+    return progs
+
+
+def _zero_background_programs(ctx):
+    """Datasets with ENTIRELY zero chunks (chunk-aligned background slab, all-zero
+    volume), converted: the report of the destination against the chunks that
+    were really written."""
+    rng = ctx.rng
+    progs = []
+    for k, (shape, voxel, kw) in enumerate([([280, 3, 2], [1.0, 2.0, 4.0], {"zero_slab": 128}),
+                                            ([270, 4, 3], [1.0, 1.0, 1.0], {"zero_slab": 128}),
+                                            ([150, 4, 3], [1.0, 1.0, 1.0], {"allzero": True})]):
+        vol = _vol(shape, ["uint8", "uint16"][k % 2], voxel, **kw)
+        sharded = k == 1
+        cmds = [C("GenInfo", "A", sh="nosh"), C("GenScales", "A", src="A", type="image", enc="raw", max="all"),
+                C("Vol", "A"), C("Compute", "A", m="auto"), C("Stats", "A")]
+        if sharded:
+            cmds += [C("GenScales", "B", src="A", type="image", enc="raw", max="all"), C("Edit", "B", sh="s110"),
+                     C("Convert", "B", src="A", copy="keep")]
+        else:
+            cmds += [C("Convert", "B", src="A", copy="copy")]
+        cmds += [C("Stats", "B"), C("Convert", "B", src="A", copy="keep"), C("Stats", "B")]
+        progs.append(_prog(rng, vol, cmds))
+    return progs
+
+
+def _in_process_programs(ctx):
+    """The statistics FUNCTION API (scripts.scale_stats.show_scale_file_info) called
+    for several datasets in a row in ONE interpreter: dataset A, dataset B, dataset
+    A again (pipeline_driver.run_linked).  Every report is judged against the
+    dataset it was asked about."""
+    rng = ctx.rng
+    progs = []
+    groups = [(([300, 3, 2], "uint8", [1.0, 2.0, 4.0], "nosh"), ([200, 4, 3], "uint16", [1.0, 4.0, 4.0], "nosh")),
+              (([260, 4, 3], "uint8", [1.0, 1.0, 1.0], "s110"), ([40, 5, 5], "uint8", [1.0, 1.0, 1.0], "nosh"))]
+    if not ctx.quick:
+        groups += [(([rng.randint(130, 300), rng.randint(2, 5), rng.randint(2, 4)], rng.choice(["uint8", "uint16", "float32"]),
+                     [1.0, 1.0, 1.0], rng.choice(["nosh", "s110"])),
+                    ([rng.randint(30, 300), rng.randint(2, 5), rng.randint(2, 4)], rng.choice(["uint8", "uint32"]),
+                     [1.0, 1.0, 1.0], "nosh")) for _ in range(8)]
+    for g, (a, b) in enumerate(groups):
+        for n, (shape, dt, voxel, sh) in enumerate((a, b)):
+            build = [C("GenInfo", "A", sh=sh), C("GenScales", "A", src="A", type="image", enc="raw", max="all"),
+                     C("Vol", "A"), C("Compute", "A", m="auto")]
+            if g % 2 == 1 and n == 1:
+                build = build[:2]               # the info alone
+            ncall = 2 if n == 0 else 1          # call order: A, B, A
+            progs.append(_prog(rng, _vol(shape, dt, voxel), build + [C("Stats", "A")] * ncall,
+                               link="stats%d" % g, link_calls=ncall))
     return progs
 
 
